@@ -29,6 +29,10 @@ Record case := {
   k_clean : bool;
   k_dirdot : bool;
   k_fixed : bool;                (* K_clean_own_output did not reproduce on this tree *)
+  k_supfix : bool;               (* K_clean_not_superseded did not reproduce on this tree *)
+  k_tags : list (bytes * list string);   (* per file content: the receivers of its marker methods ShootNew/... *)
+  k_faultkind : nat;             (* 0: no failing call provoked; 1: a write fails (ENOSPC); 2: the rename fails
+                                    (the output name is a directory) *)
   k_sel : list (string * string);
   k_expect_ok : bool;            (* the harness built a valid invocation: exit 0 expected *)
   k_before : list finfo;
@@ -75,6 +79,9 @@ Definition after_visible (c : case) (n : name) : option bytes := option_map af_b
 Definition before_lookup (c : case) (n : name) : option finfo :=
   find (fun f => String.eqb (fi_name f) n) (k_before c).
 
+Definition tags_in (tbl : list (bytes * list string)) (b : bytes) : list string :=
+  match find (fun x => String.eqb (fst x) b) tbl with Some x => snd x | None => [] end.
+
 (* all states reached: after 0, 1, ..., all operations *)
 Fixpoint states (s : fs) (ops : list op) : list fs :=
   s :: match ops with [] => [] | o :: r => states (step s o) r end.
@@ -90,6 +97,18 @@ Definition op_names (o : op) : list name :=
   end.
 
 (* ---------------------------------------------------- the property, on obs *)
+(* a leftover temporary of a run that did not terminate normally: .<expected output>_<digits> *)
+Definition leftover_temp (c : case) (n : name) : bool :=
+  negb (Nat.eqb (k_rc c) 0) &&
+  existsb (fun gt => let e := file_name (k_cmd c) (fst gt) (snd gt) in
+                     let p := "." ++ e ++ "_" in
+                     sprefix p n && all_digits (sdrop (String.length p) n)
+                     && negb (String.eqb (sdrop (String.length p) n) "")) (k_sel c).
+
+(* the names the property speaks about: all names seen before or after the run, except a
+   temporary that a run which did not terminate normally left behind *)
+Definition obs_names (c : case) : list name := filter (fun n => negb (leftover_temp c n)) (names_of c).
+
 (* every operation is one the model knows, and succeeds in the model too *)
 Definition P_modelled (c : case) : bool := all_ok (init_of c) (k_ops c).
 
@@ -100,7 +119,7 @@ Definition P_atomic (c : case) : bool :=
   forallb (fun s =>
     forallb (fun n =>
       let v := visible s n in
-      opt_bytes_eqb v (visible i n) || opt_bytes_eqb v (after_visible c n)) (names_of c))
+      opt_bytes_eqb v (visible i n) || opt_bytes_eqb v (after_visible c n)) (obs_names c))
     (states i (k_ops c)).
 
 (* an inode, once reachable under a name of the directory, is never written
@@ -113,7 +132,7 @@ Definition P_stable (c : case) : bool :=
       match lookup n (dir s) with
       | Some k => String.eqb (data s k) (data fin k)
       | None => true
-      end) (names_of c))
+      end) (obs_names c))
     (states i (k_ops c)).
 
 (* names that exist only during the run (temporary files) are never Go files *)
@@ -129,12 +148,16 @@ Definition changed (c : case) (n : name) : bool :=
   | _, _ => true
   end.
 
+(* the types of the files this run created or replaced *)
+Definition covered_of (c : case) : list string :=
+  flat_map (fun a => if changed c (af_name a) then tags_in (k_tags c) (af_bytes a) else []) (k_after c).
+
 (* created or replaced names match the pattern; removed names match it, were
    generated by the same subcommand, are not all-in-one files, and the run is
    an all-in-one run *)
 Definition P_confined (c : case) : bool :=
   forallb (fun n =>
-    negb (changed c n) ||
+    negb (changed c n) || leftover_temp c n ||
     (glob (k_cmd c) n &&
      match before_lookup c n, after_lookup c n with
      | Some b, None => k_clean c && is_gen (k_cmd c) (first_line (fi_bytes b))
@@ -154,7 +177,7 @@ Definition P_kept (c : case) : bool :=
    content *)
 Definition P_superseded (c : case) : bool :=
   let i := init_of c in
-  let outs := filter (fun n => match after_lookup c n with Some _ => changed c n | None => false end) (names_of c) in
+  let outs := filter (fun n => match after_lookup c n with Some _ => changed c n | None => false end) (obs_names c) in
   forallb (fun s =>
     negb (existsb (fun f => match lookup (fi_name f) (dir s) with None => true | Some _ => false end) (k_before c))
     || forallb (fun n => opt_bytes_eqb (visible s n) (after_visible c n)) outs)
@@ -163,6 +186,17 @@ Definition P_superseded (c : case) : bool :=
 Definition Pb (c : case) : bool :=
   P_modelled c && P_atomic c && P_stable c && P_transient c && P_confined c && P_kept c
   && P_superseded c && negb (k_outside c).
+
+(* "only superseded files": every file that disappeared was generated for types that the
+   created/replaced files now provide.  FALSE on the current code for some inputs (open finding
+   K_clean_not_superseded): while the finding reproduces, a failure of this conjunct counts
+   as the known finding when the run is otherwise exactly what the model's current-code branch
+   predicts; once the finding is repaired it is part of the property like the others. *)
+Definition P_covered (c : case) : bool :=
+  forallb (fun b => match after_lookup c (fi_name b) with
+                    | Some _ => true
+                    | None => forallb (fun T => mem T (covered_of c)) (tags_in (k_tags c) (fi_bytes b))
+                    end) (k_before c).
 
 (* ------------------------------------------------------ model vs observation *)
 (* the oracle choices of the run, read off the trace: output order, temp names,
@@ -198,6 +232,7 @@ Definition genfile_of (c : case) : name :=
 
 Definition cfg_of (c : case) : cfg :=
   {| c_cmd := k_cmd c; c_clean := k_clean c; c_dirdot := k_dirdot c; c_fixed := k_fixed c;
+     c_supfix := k_supfix c; c_tags := tags_in (k_tags c); c_covered := covered_of c;
      c_genfile := genfile_of c; c_fd := first_fd (k_ops c) |}.
 
 Definition tmp_shape (o : output) : bool :=
@@ -221,7 +256,22 @@ Definition same_final (c : case) : bool :=
     end) (dedup (names_of c ++ flat_map op_names (k_ops c))%list) &&
   forallb (fun kb => String.eqb (data fin (fst kb)) (snd kb)) (k_kept c).
 
+(* a run in which the harness made one system call fail (single output): the traced operations
+   are [faulted plan k] *)
+Definition fault_agrees (c : case) : bool :=
+  match k_ops c with
+  | CreateTemp h t :: r =>
+      let chunks := chunks_of h r in
+      let o := {| o_name := hd EmptyString (expected_names c); o_tmp := t;
+                  o_chunks := if Nat.eqb (k_faultkind c) 1 then (chunks ++ ["?"])%list else chunks |} in
+      let k := if Nat.eqb (k_faultkind c) 1 then 1 + length chunks else 2 + length chunks in
+      negb (Nat.eqb (k_rc c) 0) && tmp_shape o &&
+      list_eqb op_eqb (faulted (plan (cfg_of c) (init_of c) [o]) k) (k_ops c) && same_final c
+  | _ => false
+  end.
+
 Definition model_agrees (c : case) : bool :=
+  if negb (Nat.eqb (k_faultkind c) 0) then fault_agrees c else
   if negb (k_expect_ok c) then
     (* an invocation that selects nothing or is rejected: whatever the exit code
        (that is C16/C18's subject), no operation at all reaches the directory *)
@@ -235,7 +285,9 @@ Definition model_agrees (c : case) : bool :=
     same_final c.
 
 Definition verdict (c : case) : N :=
-  if negb (Pb c) then 2%N else if model_agrees c then 0%N else 1%N.
+  if negb (Pb c) then 2%N
+  else if negb (P_covered c) && k_supfix c then 2%N
+  else if model_agrees c then 0%N else 1%N.
 
 Fixpoint mismatches_from (i : N) (cs : list case) : list (N * N) :=
   match cs with
@@ -248,7 +300,7 @@ Definition mismatches := mismatches_from 0%N.
 (* which conjunct failed, for the replay file: bit mask *)
 Definition diag (c : case) : list bool :=
   [P_modelled c; P_atomic c; P_stable c; P_transient c; P_confined c; P_kept c; P_superseded c;
-   negb (k_outside c); model_agrees c].
+   negb (k_outside c); model_agrees c; P_covered c].
 
 (* ----------------------------------------------------------- SIGKILL cases *)
 (* A run killed at an arbitrary instant.  [q_new]: the outputs (name, complete
@@ -259,6 +311,8 @@ Record kcase := {
   q_clean : bool;
   q_dirdot : bool;
   q_fixed : bool;
+  q_supfix : bool;
+  q_tags : list (bytes * list string);
   q_before : list finfo;
   q_new : list (name * bytes);       (* reference run: outputs *)
   q_ref_removed : list name;         (* reference run: names removed by Clean *)
@@ -318,6 +372,8 @@ Definition Pb_kill (c : kcase) : bool :=
 Definition crash_match (c : kcase) (outs : list output) : bool :=
   let init := mk_init (map (fun f => (fi_name f, fi_ino f, fi_bytes f)) (q_before c)) in
   let cf := {| c_cmd := q_cmd c; c_clean := q_clean c; c_dirdot := q_dirdot c; c_fixed := q_fixed c;
+               c_supfix := q_supfix c; c_tags := tags_in (q_tags c);
+               c_covered := flat_map (fun x => tags_in (q_tags c) (snd x)) (q_new c);
                c_genfile := match outs with o :: _ => o_name o | [] => EmptyString end; c_fd := 0 |} in
   let names := dedup (map fi_name (q_before c) ++ map af_name (q_after c) ++ map o_tmp outs ++ map o_name outs)%list in
   existsb (fun s =>
